@@ -76,6 +76,8 @@ def make_case(i, rng, tier):
     # convert
     fmt = rng.choice(("binary", "binary", "hex", "swtpm-log", "pcapng", "auto"))
     how = rng.choice(("file", "file", "files", "stdin"))
+    if rng.random() < 0.03:
+        how = rng.choice(("devstdin", "fifo"))         # input through a path that is not a regular file
     if fmt in ("swtpm-log", "pcapng", "auto") or rng.random() < 0.5 or (how == "files" and fmt == "binary"):
         from .. import gen as _gen
         k = _gen.Knobs(rng)
@@ -227,6 +229,20 @@ def _convert(case, res, tmp):
             res.count("skipped:ambiguous-type-name")
             return
     stdin = None
+    if case["how"] in ("devstdin", "fifo"):
+        # a pipe behind a path: /dev/stdin with a piped stdin, or a named pipe a writer feeds - only real processes can do that
+        if case["how"] == "devstdin":
+            status, out, err = cli.run_subprocess(argv + ["/dev/stdin"], stdin_bytes=blob)
+        else:
+            status, out, err = cli.run_subprocess_fifo(argv + [os.path.join(tmp, "input.fifo")], os.path.join(tmp, "input.fifo"), blob)
+        res.count("subprocess-validated")
+        if status != 0:
+            res.v("C19.a", "C19.a:status:%s" % case["how"], "%s: exit status %d, stderr %r; the library call completes" % (label, status, err[-300:]))
+        elif cli.strip(out).replace("\r\n", "\n") != cli.strip(expected):
+            res.v("C19.a", "C19.a:stdout:%s:%s" % (case["in"], case["out"]), "%s: stdout differs from the library's lines: %s" % (
+                label, common.show_diff(cli.strip(out).splitlines(), cli.strip(expected).splitlines(), "lines")))
+        res.nontrivial("convert", case["in"], case["out"], case["root"], case["how"], case["blob"])
+        return
     if case["how"] == "stdin":
         argv.append("-")
         stdin = world.SimFile(blob, case["chunks"])
